@@ -39,7 +39,14 @@
 (*     opcodes 10-12 in v2 (never generated);                              *)
 (*   - the Python representation of block/data16 values (compared as byte  *)
 (*     lists) and of is_stmt (compared as truth value);                    *)
-(*   - entries with state None (command/args are display data).            *)
+(*   - which instructions leave an entry with state None, and the args of  *)
+(*     entries that report derived quantities (special opcodes, advance_pc,*)
+(*     const_add_pc): display conventions.  What IS asserted about the     *)
+(*     entry list (`ins`): every entry identifies, by (command,            *)
+(*     is_extended), an instruction of the program, in program order (the  *)
+(*     entries are a subsequence of the instruction stream); the entries   *)
+(*     with a state are exactly the row-emitting instructions; where args  *)
+(*     are the instruction's own operands they equal the encoded ones.     *)
 (* Every emitted program is closed with DW_LNE_end_sequence (6.2.5.3:      *)
 (* every sequence must end with one).                                      *)
 (*                                                                         *)
@@ -57,6 +64,10 @@
 (*   extent.start:header_gap    header_length larger than the known        *)
 (*       fields: the program starts where header_length says (6.2.4        *)
 (*       item 5).                                                          *)
+(*   *:long_leb                 (no deviation on the unchanged tree) a    *)
+(*       LEB128 operand or extended-opcode length padded to 10 and more    *)
+(*       bytes (LongPads): 7.6 does not bound the number of groups, the    *)
+(*       value is that of the minimal encoding.                            *)
 (* Candidate repairs: fixes/C05-*.patch.  With all four applied the check  *)
 (* is green on every configuration; no false alarm had to be removed.      *)
 (*                                                                         *)
@@ -252,18 +263,24 @@ Closed(p) == IF p = <<>> \/ p[Len(p)].k = "end_sequence" THEN p ELSE Append(p, E
 (* ====================================================================== *)
 (* (C) the reader: byte-level machine                                      *)
 (* ====================================================================== *)
-\* a LEB operand is looked for in a 10-byte window (operands written here are <= 5 bytes; the window only
-\* bounds the cost of LebDec, which scans its whole argument)
-Rest(bs, pos) == SubSeq(bs, pos + 1, IF pos + 10 < Len(bs) THEN pos + 10 ELSE Len(bs))
+\* a LEB operand is looked for in a LebWindow-byte window (operands written here are <= 2 + Max(LongPads)
+\* bytes; the window only bounds the cost of LebDec, which scans its whole argument)
+LebWindow == 20
+Rest(bs, pos) == SubSeq(bs, pos + 1, IF pos + LebWindow < Len(bs) THEN pos + LebWindow ELSE Len(bs))
 \* values are Small: a LEB operand of more than 4 groups is flagged `big` (never written by the writer;
-\* the trace specification skips such programs) unless the extra groups are padding
+\* the trace specification skips such programs) unless the extra groups are padding.  DWARF 7.6 puts no
+\* bound on the number of groups: an unsigned value may be followed by any number of zero groups, a signed
+\* one by any number of copies of its sign (0 / 127) - the number denoted is the same (LebDec: base-128
+\* number of ALL groups, sign from bit 6 of the LAST group), in particular when the encoding is longer than
+\* the 10 bytes a 64-bit value needs.
 UlebAt(bs, pos) == LET d == LebDec(Rest(bs, pos), FALSE)
                        big == d.used > 4 /\ \E i \in 5..d.used : d.val.g[i] # 0
                        v == IF big \/ ~d.ok THEN 0 ELSE GroupsNat(SubSeq(d.val.g, 1, IF d.used > 4 THEN 4 ELSE d.used)) IN
                    [v |-> v, used |-> d.used, pad |-> d.used - Len(UlebOfNat(v)), big |-> big \/ ~d.ok]
 SlebAt(bs, pos) == LET d == LebDec(Rest(bs, pos), TRUE)
-                       big == d.used > 4 \/ ~d.ok
-                       v == IF big THEN 0 ELSE GroupsInt(d.val.g, TRUE) IN
+                       f == IF d.ok /\ d.used > 4 /\ d.val.g[4] >= 64 THEN 127 ELSE 0       \* sign of the low 4 groups
+                       big == ~d.ok \/ (d.used > 4 /\ \E i \in 5..d.used : d.val.g[i] # f)
+                       v == IF big THEN 0 ELSE GroupsInt(SubSeq(d.val.g, 1, IF d.used > 4 THEN 4 ELSE d.used), TRUE) IN
                    [v |-> v, used |-> d.used, pad |-> d.used - Len(SlebOfInt(v)), big |-> big]
 \* n ULEB operands starting at pos: <<values, next pos>>
 RECURSIVE UlebsAt(_, _, _, _, _)
@@ -502,12 +519,23 @@ UnkStdOps == {13, h.ob - 1} \cap (13..(h.ob - 1))
 
 Special == \E op \in SpecialOps : Step(I1("special", op))
 Copy == Has("copy") /\ Step(I0("copy"))
+\* long non-minimal LEB128 operands: LongPads extra groups give encodings of 10 and more bytes, i.e. more
+\* groups than a 64-bit value needs (a decoder that stops shifting / sign-extending at 64 bits gets them
+\* wrong).  Classes: the shortest such encoding of a 1-byte value (1 + 9), a 2-byte value padded to exactly
+\* 10 bytes (-129 with 8), and encodings well beyond 10 bytes (.. + 12); negative and positive SLEB values,
+\* ULEB values, and the length of an extended opcode.
+LongPads == {9, 12}
+NoLongPads == {}          \* (a configuration may override LongPads: LineProgram_len3 leaves the long encodings to the others)
 AdvancePc == Has("advance_pc") /\ \/ \E n \in {0, 1, 5, 200, 70000} : Step(I1("advance_pc", n))
                                   \/ Step(I("advance_pc", 3, 2, <<>>, <<>>))
+                                  \/ \E k \in LongPads : Step(I("advance_pc", 5, k, <<>>, <<>>))
 AdvanceLine == Has("advance_line") /\ \/ \E d \in {-3, 0, 7, 100, -129} : Step(I1("advance_line", d))
                                       \/ Step(I("advance_line", 63, 1, <<>>, <<>>))
+                                      \/ \E k \in LongPads : \E d \in {-1, 100} : Step(I("advance_line", d, k, <<>>, <<>>))
+                                      \/ LongPads # {} /\ Step(I("advance_line", -129, 8, <<>>, <<>>))
 SetFile == Has("set_file") /\ \E n \in {0, 3} : Step(I1("set_file", n))
-SetColumn == Has("set_column") /\ \E n \in {0, 300} : Step(I1("set_column", n))
+SetColumn == Has("set_column") /\ \/ \E n \in {0, 300} : Step(I1("set_column", n))
+                                  \/ LongPads # {} /\ Step(I("set_column", 300, 9, <<>>, <<>>))
 NegateStmt == Has("negate_stmt") /\ Step(I0("negate_stmt"))
 SetBasicBlock == Has("set_basic_block") /\ Step(I0("set_basic_block"))
 ConstAddPc == Has("const_add_pc") /\ Step(I0("const_add_pc"))
@@ -524,6 +552,7 @@ SetDiscriminator == h.v >= 4 /\ \E n \in {5, 200} : Step(I1("set_discriminator",
 UnknownExtended == \/ Step(I("unknown_ext", 128, 0, <<>>, <<>>))
                    \/ Step(I("unknown_ext", 128, 0, <<1, 0, 255>>, <<>>))
                    \/ Step(I("unknown_ext", 33, 1, <<170, 0>>, <<>>))
+                   \/ LongPads # {} /\ Step(I("unknown_ext", 33, 9, <<170>>, <<>>))       \* length LEB of 10 bytes
 
 Grow == \/ Special \/ Copy \/ AdvancePc \/ AdvanceLine \/ SetFile \/ SetColumn \/ NegateStmt \/ SetBasicBlock
         \/ ConstAddPc \/ FixedAdvancePc \/ SetPrologueEnd \/ SetEpilogueBegin \/ SetIsa \/ UnknownStandard
@@ -561,7 +590,27 @@ ProgTag(hh, p) ==
   LET ks == Kinds(p) IN
   IF hh.mo > 1 /\ ks \cap Devs # {} THEN "max_ops>1"
   ELSE IF "unknown_std" \in ks THEN "unknown_std"
+  ELSE IF \E i \in 1..Len(p) : p[i].pad >= 8 THEN "long_leb"      \* an operand / length LEB128 of >= 10 bytes
   ELSE IF hh.mo > 1 THEN "vliw" ELSE "plain"
+
+\* Identification of the instructions of a program as they are found in the bytes (6.2.3: special, standard and
+\* extended opcodes are three classes; the numbers of tables 7.25 / 7.26 overlap, so an instruction is identified by
+\* the pair (opcode number, extended?)), whether executing it appends a row, and its operands as encoded.
+\* ConsumesExtent ties this to the bytes (the byte machine decodes exactly these instructions).
+InsId(x) == CASE x.k \in {"special", "unknown_std"} -> <<x.a, FALSE>>
+              [] x.k = "end_sequence" -> <<1, TRUE>>
+              [] x.k = "set_address" -> <<2, TRUE>>
+              [] x.k = "define_file" -> <<3, TRUE>>
+              [] x.k = "set_discriminator" -> <<4, TRUE>>
+              [] x.k = "unknown_ext" -> <<x.a, TRUE>>
+              [] OTHER -> <<StdCode[x.k], FALSE>>
+InsOperands(x) == CASE x.k \in UlebStd \cup {"advance_line", "fixed_advance_pc", "set_discriminator"} -> <<N(x.a)>>
+                    [] x.k = "set_address" -> <<W(x.w)>>
+                    [] x.k = "define_file" -> <<VStr(x.w), N(x.b[1]), N(x.b[2]), N(x.b[3])>>
+                    [] x.k = "unknown_std" -> [i \in 1..Len(x.b) |-> N(x.b[i])]
+                    [] OTHER -> <<>>
+EmitsRowK(x) == x.k \in {"special", "copy", "end_sequence"}
+InsJ(x) == <<InsId(x)[1], InsId(x)[2], EmitsRowK(x), InsOperands(x), x.k>>
 
 \* expectations for one unit placed at offset off of .debug_line
 UnitView(u, off) ==
@@ -573,7 +622,8 @@ UnitView(u, off) ==
             default_is_stmt |-> u.h.dis, line_base |-> u.h.lb, line_range |-> u.h.lr, opcode_base |-> u.h.ob,
             standard_opcode_lengths |-> StdLens(u.h)],
    tabs |-> TabView(u),
-   rows |-> LET rs == RunProg(u.h, u.p).out IN [i \in 1..Len(rs) |-> RowJ(rs[i])]]
+   rows |-> LET rs == RunProg(u.h, u.p).out IN [i \in 1..Len(rs) |-> RowJ(rs[i])],
+   ins |-> [i \in 1..Len(u.p) |-> InsJ(u.p[i])]]
 
 Units == LET u1 == Unit(h, tabs, gap, Closed(prog)) IN
          IF extra = <<>> THEN <<u1>> ELSE <<u1, extra[1].u2>>
@@ -619,6 +669,9 @@ SequenceReset ==
         /\ prog[j].k = "end_sequence"
         /\ Len(RunProg(h, SubSeq(prog, 1, j)).out) = i
   /\ ~regs.end_sequence
+
+\* rows are appended by exactly the row-emitting instructions, one each, in program order
+RowsMatchEmitters == Len(rows) = Len(SelectSeq(prog, EmitsRowK))
 
 \* the byte machine stops exactly at the end of the encoding, recovers the written instructions
 \* and produces the rows of the abstract machine; every prefix boundary is an instruction boundary
